@@ -526,7 +526,7 @@ func c04UnusualRunes(c *Ctx, idx int) {
 func init() {
 	Register(&Property{
 		ID:            "C04",
-		Rule:          "Compile's verdict compared with two reference recognisers (STRICT accepts / LENIENT rejects; texts in between are not judged): every token gap of a base set (valid corpus expressions + generated members) filled with each of 5 whitespace strings (exhaustive); a third of the (gap, token) pairs of ~125 foreign tokens (operators and keywords of other query languages, plausible extensions, full-width and mathematical look-alikes of the grammar's own operators, number spellings JSON does not have) inserted bare and space-separated; the complete single-token-edit neighbourhood of the base set (delete, duplicate, swap, replace by / insert each of 45 token kinds, truncate) (exhaustive); hand-written member and non-member lists (escapes, malformed JSON literals, wrong token kinds in key/index position); generated members in hostile spellings; generated and corrupted JSON literal texts; non-trivial = text judged by the recognisers; distinct by text; string-token-bytes stream: every sequence of up to 3/4 pieces from a 13-piece byte alphabet (delimiters, backslash, 1-/2-byte characters, stray and truncated UTF-8 bytes) between each pair of string delimiters and free-standing; lone-surrogates stream: a quoted identifier with an unpaired surrogate escape is rejected or keeps everything written around the surrogate (direct oracle, 4 heads x 6 surrogates x 17 tails); escape-window stream: all 4-piece windows after \\u over a 14-piece alphabet (hex digits, look-alikes, non-ASCII characters whose low byte is a hex digit, fullwidth digits), alone and as second half of a surrogate pair, and every code point U+0080..U+24FF at each of the four positions, in quoted identifiers and JSON literals; padded-numbers stream: 1..5000 leading zeros in 24 bracket positions; identifier-neighbours stream: every code point U+0080..U+24FF and samples of the higher planes glued to the end / start / middle of a name, a variable and a function name",
+		Rule:          "Compile's verdict compared with two reference recognisers (STRICT accepts / LENIENT rejects; texts in between are not judged): every token gap of a base set (valid corpus expressions + generated members) filled with each of 5 whitespace strings (exhaustive); a third of the (gap, token) pairs of ~125 foreign tokens (operators and keywords of other query languages, plausible extensions, full-width and mathematical look-alikes of the grammar's own operators, number spellings JSON does not have) inserted bare and space-separated; the complete single-token-edit neighbourhood of the base set (delete, duplicate, swap, replace by / insert each of 45 token kinds, truncate) (exhaustive); hand-written member and non-member lists (escapes, malformed JSON literals, wrong token kinds in key/index position); generated members in hostile spellings; generated and corrupted JSON literal texts; non-trivial = text judged by the recognisers; distinct by text; string-token-bytes stream: every sequence of up to 3/4 pieces from a 13-piece byte alphabet (delimiters, backslash, 1-/2-byte characters, stray and truncated UTF-8 bytes) between each pair of string delimiters and free-standing; lone-surrogates stream: a quoted identifier with an unpaired surrogate escape is rejected or keeps everything written around the surrogate (direct oracle, 4 heads x 6 surrogates x 17 tails); escape-window stream: all 4-piece windows after \\u over a 14-piece alphabet (hex digits, look-alikes, non-ASCII characters whose low byte is a hex digit, fullwidth digits), alone and as second half of a surrogate pair, and every code point U+0080..U+24FF at each of the four positions, in quoted identifiers and JSON literals; padded-numbers stream: 1..5000 leading zeros in 24 bracket positions; identifier-neighbours stream: every code point U+0080..U+24FF and samples of the higher planes glued to the end / start / middle of a name, a variable and a function name; control-characters-in-literals stream: U+0000..U+001F and U+007F raw inside JSON-literal strings (bare, padded, in arrays and objects, as keys, next to escapes), between tokens and in the other string syntaxes",
 		MinNontrivial: 2000,
 		Streams: []Stream{
 			{Name: "lists", N: func(c *Ctx) int { return len(c04Members) + len(c04NonMembers) }, Run: c04Lists, Exhaustive: true},
